@@ -118,18 +118,22 @@ def check_versions(ctx, facts, rule):
         # ---- stamp update: source 0, origin n ------------------------------------------------------------------------
         for a_rel in (None, '<', '=', '>'):
             for b_kind in ('absent', 'low', 'high'):
+              for c_kind in ('below', 'above'):
+                # (the cut-off recorded before the update: below everything, or above the incoming stamp — an operation that reaches a
+                #  lagging source late; the update must not depend on it)
                 ranks = {'zero': 0, 'in': 5}
                 if a_rel:
                     ranks['a'] = {'<': 4, '=': 5, '>': 6}[a_rel]
                 if b_kind != 'absent':
                     ranks['b'] = 1 if b_kind == 'low' else 9
                 ranks.update({k + '-F': -1 for k in list(ranks)})
+                ranks['old-cutoff'] = -0.5 if c_kind == 'below' else 5.5
                 it = Interp(facts, rank_order(ranks), opaque_call=ts_algebra)
                 v = roles.make([{'n': 'a'} if a_rel else {}, {'n': 'b'} if b_kind != 'absent' else {}], cutoff={'n': 'old-cutoff'})
                 r = it.run_body(upd, [('ref', Cell(v)), ('int', 0), ('ts', 'in')])
                 st, co = roles.read(v)
                 consts |= {x[1] for x in it.trace if isinstance(x, tuple) and x[0] == 'forgiveness'}
-                results['upd'].append(((a_rel, b_kind), ranks, r[1], st, co))
+                results['upd'].append(((a_rel, b_kind, c_kind), ranks, r[1], st, co))
         # ---- predicate ------------------------------------------------------------------------------------------------
         for c_rel in (None, '<', '=', '>'):
             ranks = {'in': 5}
@@ -174,13 +178,14 @@ def check_versions(ctx, facts, rule):
             return x.endswith('-F') and y.endswith('-F') and same(ranks, x[:-2], y[:-2])
         return x in ranks and y in ranks and ranks[x] == ranks[y]
     # stamp update
-    for (a_rel, b_kind), ranks, ret, st, co in results['upd']:
+    for (a_rel, b_kind, c_kind), ranks, ret, st, co in results['upd']:
         want_ret = a_rel != '>'
         want0 = 'a' if a_rel == '>' else 'in'
         got0 = st[0].get('n')
         ok1 = ret == want_ret and got0 is not None and same(ranks, got0, want0)
         lab = 'newest stamp of the source %s, other source %s' % ({None: 'absent', '<': 'older than incoming', '=': 'equal to incoming', '>': 'newer than incoming'}[a_rel],
-                                                                  {'absent': 'has none', 'low': 'holds an older stamp', 'high': 'holds a newer stamp'}[b_kind])
+                                                                  {'absent': 'has none', 'low': 'holds an older stamp', 'high': 'holds a newer stamp'}[b_kind]) + \
+              ('' if c_kind == 'below' else ', recorded cut-off above the incoming stamp')
         ctx.ob(rule, 'stamp-update|%s|register' % lab, ok1, _site(upd),
                'the per-source stamp is a max-register and the update is refused exactly when the incoming stamp is older' if ok1 else
                'stamp update with %s: expected stamp %s and result %s, the code leaves %s and returns %s (a per-source stamp that can move backwards '
